@@ -148,11 +148,14 @@ def run_one(mu):
         rc, out = sh(f"PROBE_REPO={tmp} {PY} /verif/selftest/practice_probe.py", timeout=300, env=env)
         if rc != 0 or " bad 0" not in out:
             seen.append("practice")
+        hangs = 0
         for d in ORACLE_DEMOS:
-            rc, out = sh(f"timeout 120 {PY} {d}", cwd=os.path.dirname(d), timeout=150, env=env)
+            rc, out = sh(f"timeout 60 {PY} {d}", cwd=os.path.dirname(d), timeout=90, env=env)
+            if rc in (124, 137):
+                hangs += 1
             if rc != 0:
                 seen.append(os.path.basename(os.path.dirname(d)))
-                if len(seen) >= 4:
+                if len(seen) >= 4 or hangs >= 2:
                     break
         if not seen:
             for e in ORACLE_EQUIV:
@@ -197,7 +200,8 @@ def main():
     print(f"{len(allm)} candidate edits in {mods}; running {len(pick)}", flush=True)
     stats = {}
     with open(a.out, "a") as f, concurrent.futures.ThreadPoolExecutor(a.jobs) as ex:
-        for r in ex.map(run_one, pick):
+        for fut in concurrent.futures.as_completed([ex.submit(run_one, m) for m in pick]):
+            r = fut.result()
             stats[r["status"]] = stats.get(r["status"], 0) + 1
             f.write(json.dumps(r, ensure_ascii=False) + "\n")
             f.flush()
